@@ -179,7 +179,7 @@ func (c02) Units(t core.Tier) int { return len(c02Units(t)) }
 func (c02) RunUnit(t core.Tier, u int, r *core.Reporter) {
 	c02Init()
 	if c02Adequacy != "" {
-		r.Fail(core.Failure{Property: "C02", Leg: "universe-adequacy", Sig: "harness", Case: c02Adequacy})
+		r.Fail(core.Failure{Property: "C02", Leg: "harness", Sig: "universe-not-adequate", Case: c02Adequacy})
 		return
 	}
 	r.Max("max_relation_vectors_realised", int64(c02Vectors))
